@@ -156,7 +156,7 @@ fn pipe(mode: Mode) {
 	// index growth under concurrent reads: one transaction also writes 66 filler keys of the same
 	// index page, so that the page overflows and the log worker rebuilds the index while readers
 	// (which then read for much longer, with pauses) are active
-	let growth = col_kind == 2 && rng.gen_ratio(1, 5);
+	let growth = col_kind == 2 && rng.gen_ratio(1, 3);
 	const FILL0: u8 = 100;
 	const NFILL: u8 = 66;
 	let reads_per: usize = if growth { rng.gen_range(20..90) } else { rng.gen_range(2..12) };
@@ -167,7 +167,8 @@ fn pipe(mode: Mode) {
 	// long time at one of its lock acquisitions
 	loom::stall::clear();
 	if rng.gen_bool(0.5) {
-		let role = rng.gen_range(0..6u32);
+		// in the visibility scenario a reader paused in the middle of a lookup is the interesting stall
+		let role = if mode == Mode::Vis && rng.gen_bool(0.4) { 5 } else { rng.gen_range(0..6u32) };
 		let at = if rng.gen_bool(0.5) { rng.gen_range(1..60u32) } else { rng.gen_range(1..600u32) };
 		let len = *[30u32, 200, 1000, 4000].get(rng.gen_range(0..4usize)).unwrap();
 		loom::stall::plan(role, at, len);
@@ -460,13 +461,23 @@ fn lock_scenario() {
 	let mut rng = shuttle::rand::thread_rng();
 	let ntasks: usize = rng.gen_range(2..5);
 	let rounds: usize = rng.gen_range(1..4);
-	let mut o = Options::with_columns(std::path::Path::new(&dir), 1);
+	// column 1 holds one tree: a tree reader keeps the database's inner state alive after the
+	// handle itself was dropped (and its lock released)
+	let mut o = Options::with_columns(std::path::Path::new(&dir), 2);
+	o.columns[1] = ColumnOptions { multitree: true, append_only: true, ..Default::default() };
 	o.salt = Some([3u8; 32]);
 	o.stats = false;
 	o.with_background_thread = false;
 	// create the database and leave something to replay for whoever opens next
 	{
 		let db = Db::open_or_create(&o).unwrap();
+		db.commit_changes(vec![(
+			1u8,
+			parity_db::Operation::InsertTree(b"tree".to_vec(), parity_db::NewNode { data: vec![1, 2, 3], children: vec![] }),
+		)])
+		.unwrap();
+		drop(db);
+		let db = Db::open(&o).unwrap();
 		db.commit(vec![(0u8, b"seed".to_vec(), Some(b"value".to_vec()))]).unwrap();
 		drop(db);
 	}
@@ -514,11 +525,20 @@ fn lock_scenario() {
 							Ok(Some(v)) if v == b"value" => {},
 							other => panic!("VIOL C18 data-lost: seed key reads {:?}", other.map(|o| o.map(|v| v.len()))),
 						}
+						// sometimes a tree reader outlives the handle
+						let reader = if rng.gen_ratio(1, 3) { db.get_tree(1, b"tree").ok().flatten() } else { None };
 						// no scheduling point between the end of drop and the decrement
 						dropping.fetch_add(1, Ordering::SeqCst);
 						drop(db);
 						dropping.fetch_sub(1, Ordering::SeqCst);
 						live.fetch_sub(1, Ordering::SeqCst);
+						if let Some(rd) = reader {
+							probe("tree_reader_outlived_its_handle");
+							for _ in 0..rng.gen_range(0..120) {
+								thread::sleep(std::time::Duration::ZERO);
+							}
+							drop(rd);
+						}
 						r += 1;
 					},
 					Err(Error::Locked(_)) => {
@@ -1073,7 +1093,7 @@ fn visx(iter_mode: bool, heavy: bool) {
 	loom::stall::clear();
 	if rng.gen_bool(if heavy { 0.7 } else { 0.4 }) {
 		// heavy: mostly the commit worker (0) or the log worker (2) falls behind
-		let role = if heavy && rng.gen_bool(0.7) { *[0u32, 2].get(rng.gen_range(0..2usize)).unwrap() } else { rng.gen_range(0..6u32) };
+		let role = if heavy && rng.gen_bool(0.7) { *[0u32, 2].get(rng.gen_range(0..2usize)).unwrap() } else if !heavy && rng.gen_bool(0.4) { 5 } else { rng.gen_range(0..6u32) };
 		let at = if rng.gen_bool(0.5) { rng.gen_range(1..60u32) } else { rng.gen_range(1..600u32) };
 		let len = *[30u32, 200, 1000, 4000].get(rng.gen_range(0..4usize)).unwrap();
 		loom::stall::plan(role, at, len);
